@@ -326,6 +326,9 @@ def const_val(body, op):
         return Val("list", [_cv(x) for x in c["array"]])
     if "pp" in c:
         pp = c["pp"]
+        md = re.match(r"^core::time::Duration \{+\s*secs: (\d+)_u64, nanos: .*?\((\d+)_u32", pp)
+        if md and int(md.group(2)) == 0:
+            return Val("int", int(md.group(1)), "dur")            # a whole number of seconds
         # fieldless enum constants are rendered as a path `crate::mod::Enum::Variant`
         if "::" in pp and pp.replace("::", "").replace("_", "").isalnum():
             adt, name = pp.rsplit("::", 1)
@@ -667,6 +670,51 @@ class Interp:
             return vstr(out)
         if fn == "core::hint::must_use" and args:
             return args[0]
+        if fn.startswith("core::time::Duration::") and d and all(x.k == "int" for x in d):
+            x = d[0].v
+            y = d[1].v if len(d) > 1 else None
+            if m == "saturating_sub" and y is not None:
+                return Val("int", max(0, x - y), "dur")
+            if m == "saturating_add" and y is not None:
+                return Val("int", x + y, "dur")
+            if m in ("checked_sub", "checked_add") and y is not None:
+                r_ = x - y if m == "checked_sub" else x + y
+                return some(Val("int", r_, "dur")) if 0 <= r_ < 2 ** 64 else NONE_V
+            if m == "is_zero":
+                return vbool(x == 0)
+            if m == "as_secs":
+                return vint(x)
+            if m == "from_secs":
+                return Val("int", x, "dur")
+        if fn.startswith(("std::collections::hash::set::HashSet::", "alloc::collections::btree::set::BTreeSet::")) and d and d[0].k == "list":
+            av = [x.deref() for x in d[0].v]
+            comparable = lambda L: all(x.k in ("str", "int", "variant", "char") for x in L)
+            if len(d) > 1 and d[1].k == "list" and comparable(av) and comparable([x.deref() for x in d[1].v]):
+                bv = [x.deref() for x in d[1].v]
+                inb = lambda x: any(y.k == x.k and y.v == x.v for y in bv)
+                ina = lambda x: any(y.k == x.k and y.v == x.v for y in av)
+                if m == "difference":
+                    return Val("iter", [Val("ref", x) for x in av if not inb(x)])
+                if m == "intersection":
+                    return Val("iter", [Val("ref", x) for x in av if inb(x)])
+                if m == "union":
+                    return Val("iter", [Val("ref", x) for x in av] + [Val("ref", x) for x in bv if not ina(x)])
+                if m == "symmetric_difference":
+                    return Val("iter", [Val("ref", x) for x in av if not inb(x)] + [Val("ref", x) for x in bv if not ina(x)])
+                if m == "is_subset":
+                    return vbool(all(inb(x) for x in av))
+                if m == "is_superset":
+                    return vbool(all(ina(x) for x in bv))
+                if m == "is_disjoint":
+                    return vbool(not any(inb(x) for x in av))
+            if m == "contains" and len(d) > 1 and comparable(av) and d[1].k in ("str", "int", "variant", "char"):
+                return vbool(any(y.k == d[1].k and y.v == d[1].v for y in av))
+            if m == "len":
+                return vint(len(av))
+            if m == "is_empty":
+                return vbool(not av)
+            if m == "iter":
+                return Val("iter", [Val("ref", x) for x in d[0].v])
         if fn.startswith(("core::cmp::PartialOrd::", "core::cmp::Ord::")) and len(d) == 2 and d[0].k == d[1].k and d[0].k in ("int", "str", "char"):
             x, y = d[0].v, d[1].v
             if m in ("lt", "le", "gt", "ge"):
